@@ -20,4 +20,14 @@ let stress_case = function
     if !r = [] then [Ok_ ["stress"; (if s_int tk = 0 then "epoch" else "clocked")]] else !r
   | _ -> raise (Bad "stress case")
 
-let () = register "C14stress" "stress" stress_case
+(* a zero-time source's counter must survive any number of other (source, time) states: the second
+   zero-time bundle gets the next number (the model never forgets epoch-time entries) *)
+let burst_case = function
+  | [k; s0; s1] ->
+    if s_int s0 = 0 && s_int s1 = 1 then [Ok_ ["burst"]]
+    else if s_int s1 = s_int s0 then
+      [Propfail ("idkeeper.dup-id", Printf.sprintf "the second zero-time bundle of a source got sequence number %d again after %d other (source, time) states had been counted in between" (s_int s1) (s_int k))]
+    else [Mismatch (Printf.sprintf "zero-time sequence numbers %d, %d after %d states" (s_int s0) (s_int s1) (s_int k))]
+  | _ -> raise (Bad "burst case")
+
+let () = register "C14stress" "stress" stress_case; register "C14stress" "burst" burst_case
